@@ -6,8 +6,8 @@
 		VP_SZ(g_msg_freed); g_msg_freed_at_j = nondet_ptr();                  \
 		VP_SZ(g_free_calls); VP_SZ(g_alloc_ok); VP_SZ(g_msg_alloc_calls); g_msg_alloc_sz = nondet_size_t(); g_msg_last = nondet_ptr(); \
 		VP_SZ(g_recvq.n); g_recvq.head = nondet_ptr(); g_recvq.next = nondet_ptr(); g_recvq_addr = nondet_ptr(); \
-		VP_HAVOC_FQ(g_rxq); VP_HAVOC_FQ(g_txq); g_rxq_addr = nondet_ptr(); g_txq_addr = nondet_ptr(); \
-		VP_SZ(g_rd_calls); VP_SZ(g_wr_calls); VP_SZ(g_hclose_calls); g_io_http = nondet_ptr(); g_rd_aio = nondet_ptr(); g_wr_aio = nondet_ptr(); \
+		VP_HAVOC_FQ(g_rxq); VP_SZ(g_txq.n); g_txq.head = nondet_ptr(); g_txq.next = nondet_ptr(); g_rxq_addr = nondet_ptr(); g_txq_addr = nondet_ptr(); \
+		VP_SZ(g_rd_calls); VP_SZ(g_wr_calls); VP_SZ(g_hclose_calls); g_rd_http = nondet_ptr(); g_wr_http = nondet_ptr(); g_rd_aio = nondet_ptr(); g_wr_aio = nondet_ptr(); \
 		VP_SZ(g_fin_calls); g_fin_last = nondet_ptr(); g_fin_last_rv = nondet_int(); g_fin_last_count = nondet_size_t(); \
 		VP_SZ(g_aio_close_calls); VP_SZ(g_aio_reset_calls); VP_SZ(g_start_calls); g_aio_start_ok = nondet_bool(); \
 		g_rand_last = nondet_u32(); VP_SZ(g_rand_calls);                      \
